@@ -7,7 +7,7 @@ NOTES = ("Every check regenerates BRV/Gen/Facts.lean from /repo, rebuilds the pr
          "See DESIGN.md. Fix commits in /repo: see known_findings.txt (fixed: lines).")
 
 # properties whose check is complete and green on the unchanged tree (claimed in MANIFEST.json)
-READY = ["C01", "C02", "C03", "C04", "C05", "C06", "C07", "C08", "C09", "C10", "C11", "C12", "C13", "C14", "C15", "C17", "C18", "C19", "C20"]
+READY = ["C01", "C02", "C03", "C04", "C05", "C06", "C07", "C08", "C09", "C10", "C11", "C12", "C13", "C14", "C15", "C16", "C17", "C18", "C19", "C20"]
 
 NOT_CLAIMED = {}
 
